@@ -785,9 +785,7 @@ theorem simple_glyph_within_rounding (ax : Nat) (shared : List (List Int)) (byte
     (hfit : 131072 * M + 4 * (Δ * 65536) + 65536 ≤ 2147483647)
     (hpts : ∀ k, (-M ≤ (Iup.getP points k).1 ∧ (Iup.getP points k).1 ≤ M) ∧
       (-M ≤ (Iup.getP points k).2 ∧ (Iup.getP points k).2 ≤ M))
-    (hts : ∀ t ∈ ts, t.has.length = np ∧ t.ds.length = np ∧ (0 < t.s ∧ t.s ≤ 65536) ∧
-      (∀ k, (-Δ ≤ (Iup.getP t.ds k).1 ∧ (Iup.getP t.ds k).1 ≤ Δ) ∧ (-Δ ≤ (Iup.getP t.ds k).2 ∧ (Iup.getP t.ds k).2 ≤ Δ)) ∧
-      (∀ k, t.has.getD k false = false → Iup.getP t.ds k = (0, 0)))
+    (hscal : ∀ a ∈ activeTuples ax shared g coords, 0 < a.2 ∧ a.2 ≤ 65536)
     (c : Nat × Nat) (hc : c ∈ contoursOf 0 ends) (k : Nat) (hk1 : c.1 ≤ k) (hk2 : k ≤ c.2)
     (h4 : 4 ≤ points.length)
     (hlen : (activeTuples ax shared g coords).length = ts.length)
@@ -818,6 +816,17 @@ theorem simple_glyph_within_rounding (ax : Nat) (shared : List (List Int)) (byte
             (Iup.inferSpec (points.drop c.1) ((t.ds.drop c.1).take (c.2 - c.1 + 1)) (t.has.drop c.1) (k - c.1)).2.2)).sum / 65536)|
       ≤ 1 / 2 + (ts.map fun t =>
           (((Iup.inferSpec (points.drop c.1) ((t.ds.drop c.1).take (c.2 - c.1 + 1)) (t.has.drop c.1) (k - c.1)).2.2 : ℚ) - 1) / 2).sum / 65536 := by
+  have hts : ∀ t ∈ ts, t.has.length = np ∧ t.ds.length = np ∧ (0 < t.s ∧ t.s ≤ 65536) ∧
+      (∀ k, (-Δ ≤ (Iup.getP t.ds k).1 ∧ (Iup.getP t.ds k).1 ≤ Δ) ∧ (-Δ ≤ (Iup.getP t.ds k).2 ∧ (Iup.getP t.ds k).2 ≤ Δ)) ∧
+      (∀ k, t.has.getD k false = false → Iup.getP t.ds k = (0, 0)) := by
+    intro t ht
+    obtain ⟨a, ha⟩ := mem_zip_of_mem_right _ ts hlen t ht
+    have hs := hscal a (List.of_mem_zip ha).1
+    rcases hswf (a, t) ha with h | h
+    · obtain ⟨e1, e2, e3, e4, e5⟩ := SparseWF.bounds points _ Δ hΔ a t h
+      exact ⟨by rw [e2, hpl], by rw [e3, hpl], by rw [e1]; exact hs, e4, e5⟩
+    · obtain ⟨e1, e2, e3, e4, e5⟩ := DenseWF.bounds points _ Δ hΔ a t h
+      exact ⟨by rw [e2, hpl], by rw [e3, hpl], by rw [e1]; exact hs, e4, e5⟩
   have hdec : ∀ p ∈ (activeTuples ax shared g coords).zip ts, StepDecodes points ends g.sharedPts p.1 p.2 := by
     intro p hp
     have hmem : p.2 ∈ ts := (List.of_mem_zip (show (p.1, p.2) ∈ _ from hp)).2
@@ -840,6 +849,106 @@ theorem simple_glyph_within_rounding (ax : Nat) (shared : List (List Int)) (byte
   injection e2 with e2
   subst e2
   exact ⟨d1, e1, b1, b2⟩
+
+/-- the writer's explicit point numbers are distinct: `pick_best_point_number_repr` lists the
+required indices in strictly ascending order, so the packed-point-number writer never emits a
+duplicate (the `pts.Nodup` of `SparseWF` holds for every tuple write-fonts writes). -/
+theorem writer_point_numbers_distinct (tents : List Tent) (ds : List GDelta) (t : TupleIn)
+    (h : glyphDeltasNew tents ds = some t) (hlen : ds.length ≤ 65536) (pts : List Nat)
+    (hb : t.best = some pts) : pts.Nodup := by
+  unfold glyphDeltasNew at h
+  cases hp : pickBest ds with
+  | none => simp [hp] at h
+  | some b =>
+    simp only [hp, Option.some.injEq] at h
+    subst h
+    simp only at hb
+    subst hb
+    rcases pickBest_cases ds _ hp with hc | ⟨hc, hne⟩
+    · cases hc
+    · injection hc with hc
+      rw [hc]
+      cases hr : requiredIdx 0 ds with
+      | nil => simp
+      | cons p0 ps =>
+        obtain ⟨_, hasc⟩ := requiredIdx_head ds 0 (by omega) p0 ps hr
+        exact sasc_nodup ps p0 hasc
+
+/- FULL STATEMENT `written_then_applied_within_tolerance`: for every input to `Gvar::new` (tuples whose
+deltas went through `iup_delta_optimize` at tolerance τ), skrifa's output coordinate computed from the
+WRITTEN bytes is within `1/2 + Σ_t ((den_t − 1)/131072 + (s_t/65536)·τ)` of
+`original + Σ_t (s_t/65536)·δ_t(input)`.  PROVED below: the composition from the bytes
+(`simple_glyph_within_rounding`) with the per-tuple tolerance hypothesis `|I_t − δ_t(input)| ≤ τ` — which is
+what `iup_delta_optimize_sound` gives per axis for the tuples write-fonts emits (required deltas exact,
+omitted ones within τ of the specification's inference) — and `writer_point_numbers_distinct` (the
+writer's streams satisfy the `Nodup` of `SparseWF`).  MISSING LINK: `glyph_variations_roundtrip` states
+the reader's view (`peak`, region, `deltas()`) of the written tuples; deriving from it that the RAW
+tuples of the written bytes satisfy `SparseWF ∨ DenseWF` needs the stream structure inside its proof
+(`ptsAndDeltas = (packed points ++ rest, encodeDeltas xs ++ encodeDeltas ys)`) exported, plus a
+`read_dense_deltas` analogue of `readSparse_runs`; and the identification of the decoded tuples' `ds`
+with the input deltas restricted to the kept set. -/
+/-- **`written_then_applied_within_tolerance_partial`** -/
+theorem written_then_applied_within_tolerance_partial (ax : Nat) (shared : List (List Int)) (bytes : List Nat)
+    (coords : List Int) (g : GlyphRead) (hr : readGlyph ax bytes = some g)
+    (np : Nat) (points : List Iup.Pt) (ends : List Nat) (ts : List DTuple)
+    (hpl : points.length = np) (hwf : ContoursWF np 0 ends) (hne : ts ≠ [])
+    (M Δ : Int) (hM : 0 ≤ M ∧ M ≤ 16383) (hΔ : 0 ≤ Δ)
+    (hfit : 131072 * M + 4 * (Δ * 65536) + 65536 ≤ 2147483647)
+    (hpts : ∀ k, (-M ≤ (Iup.getP points k).1 ∧ (Iup.getP points k).1 ≤ M) ∧
+      (-M ≤ (Iup.getP points k).2 ∧ (Iup.getP points k).2 ≤ M))
+    (hscal : ∀ a ∈ activeTuples ax shared g coords, 0 < a.2 ∧ a.2 ≤ 65536)
+    (c : Nat × Nat) (hc : c ∈ contoursOf 0 ends) (k : Nat) (hk1 : c.1 ≤ k) (hk2 : k ≤ c.2)
+    (h4 : 4 ≤ points.length)
+    (hlen : (activeTuples ax shared g coords).length = ts.length)
+    (hswf : ∀ p ∈ (activeTuples ax shared g coords).zip ts,
+      SparseWF points g.sharedPts Δ p.1 p.2 ∨ DenseWF points g.sharedPts Δ p.1 p.2)
+    (hwrap : |(ts.map fun t => (t.s : ℚ) *
+          (((Iup.inferSpec (points.drop c.1) ((t.ds.drop c.1).take (c.2 - c.1 + 1)) (t.has.drop c.1) (k - c.1)).1.1 : ℚ) /
+            (Iup.inferSpec (points.drop c.1) ((t.ds.drop c.1).take (c.2 - c.1 + 1)) (t.has.drop c.1) (k - c.1)).1.2)).sum|
+        + (ts.map fun t =>
+          (((Iup.inferSpec (points.drop c.1) ((t.ds.drop c.1).take (c.2 - c.1 + 1)) (t.has.drop c.1) (k - c.1)).1.2 : ℚ) - 1) / 2).sum
+        < 2147450880)
+    (hwrapy : |(ts.map fun t => (t.s : ℚ) *
+          (((Iup.inferSpec (points.drop c.1) ((t.ds.drop c.1).take (c.2 - c.1 + 1)) (t.has.drop c.1) (k - c.1)).2.1 : ℚ) /
+            (Iup.inferSpec (points.drop c.1) ((t.ds.drop c.1).take (c.2 - c.1 + 1)) (t.has.drop c.1) (k - c.1)).2.2)).sum|
+        + (ts.map fun t =>
+          (((Iup.inferSpec (points.drop c.1) ((t.ds.drop c.1).take (c.2 - c.1 + 1)) (t.has.drop c.1) (k - c.1)).2.2 : ℚ) - 1) / 2).sum
+        < 2147450880)
+    (τ : ℚ) (dx dy : DTuple → ℚ)
+    (htolx : ∀ t ∈ ts, |(((Iup.inferSpec (points.drop c.1) ((t.ds.drop c.1).take (c.2 - c.1 + 1)) (t.has.drop c.1) (k - c.1)).1.1 : ℚ) /
+            (Iup.inferSpec (points.drop c.1) ((t.ds.drop c.1).take (c.2 - c.1 + 1)) (t.has.drop c.1) (k - c.1)).1.2) - dx t| ≤ τ)
+    (htoly : ∀ t ∈ ts, |(((Iup.inferSpec (points.drop c.1) ((t.ds.drop c.1).take (c.2 - c.1 + 1)) (t.has.drop c.1) (k - c.1)).2.1 : ℚ) /
+            (Iup.inferSpec (points.drop c.1) ((t.ds.drop c.1).take (c.2 - c.1 + 1)) (t.has.drop c.1) (k - c.1)).2.2) - dy t| ≤ τ) :
+    ∃ deltas, simpleGlyph ax shared (some bytes) coords points ends = some deltas ∧
+      |(((Iup.getP points k).1 + Fixed.toI32 (deltas.getD k (0, 0)).1 : Int) : ℚ)
+        - (((Iup.getP points k).1 : ℚ) + (ts.map fun t => (t.s : ℚ) * dx t).sum / 65536)|
+      ≤ 1 / 2 + (ts.map fun t =>
+          (((Iup.inferSpec (points.drop c.1) ((t.ds.drop c.1).take (c.2 - c.1 + 1)) (t.has.drop c.1) (k - c.1)).1.2 : ℚ) - 1) / 2).sum / 65536 + (ts.map fun t => (t.s : ℚ) * τ).sum / 65536 ∧
+      |(((Iup.getP points k).2 + Fixed.toI32 (deltas.getD k (0, 0)).2 : Int) : ℚ)
+        - (((Iup.getP points k).2 : ℚ) + (ts.map fun t => (t.s : ℚ) * dy t).sum / 65536)|
+      ≤ 1 / 2 + (ts.map fun t =>
+          (((Iup.inferSpec (points.drop c.1) ((t.ds.drop c.1).take (c.2 - c.1 + 1)) (t.has.drop c.1) (k - c.1)).2.2 : ℚ) - 1) / 2).sum / 65536 + (ts.map fun t => (t.s : ℚ) * τ).sum / 65536 := by
+  obtain ⟨deltas, e, b1, b2⟩ := simple_glyph_within_rounding ax shared bytes coords g hr np points ends ts hpl hwf hne M Δ hM hΔ hfit hpts hscal c hc k hk1 hk2 h4 hlen hswf hwrap hwrapy
+  have hwpos : ∀ t ∈ ts, (0 : ℚ) ≤ (t.s : ℚ) := by
+    intro t ht
+    obtain ⟨a, ha⟩ := mem_zip_of_mem_right _ ts hlen t ht
+    have hs := hscal a (List.of_mem_zip ha).1
+    have e1 : t.s = a.2 := by
+      rcases hswf (a, t) ha with h | h
+      · exact (SparseWF.bounds points _ Δ hΔ a t h).1
+      · exact (DenseWF.bounds points _ Δ hΔ a t h).1
+    exact_mod_cast (by omega : (0 : Int) ≤ t.s)
+  have hx := sum_weighted_tol τ (fun t : DTuple => (t.s : ℚ)) (fun t => (((Iup.inferSpec (points.drop c.1) ((t.ds.drop c.1).take (c.2 - c.1 + 1)) (t.has.drop c.1) (k - c.1)).1.1 : ℚ) /
+            (Iup.inferSpec (points.drop c.1) ((t.ds.drop c.1).take (c.2 - c.1 + 1)) (t.has.drop c.1) (k - c.1)).1.2)) dx ts
+    (fun t ht => ⟨hwpos t ht, htolx t ht⟩)
+  have hy := sum_weighted_tol τ (fun t : DTuple => (t.s : ℚ)) (fun t => (((Iup.inferSpec (points.drop c.1) ((t.ds.drop c.1).take (c.2 - c.1 + 1)) (t.has.drop c.1) (k - c.1)).2.1 : ℚ) /
+            (Iup.inferSpec (points.drop c.1) ((t.ds.drop c.1).take (c.2 - c.1 + 1)) (t.has.drop c.1) (k - c.1)).2.2)) dy ts
+    (fun t ht => ⟨hwpos t ht, htoly t ht⟩)
+  obtain ⟨x1, x2⟩ := abs_le.mp hx
+  obtain ⟨y1, y2⟩ := abs_le.mp hy
+  obtain ⟨c1, c2⟩ := abs_le.mp b1
+  obtain ⟨d1, d2⟩ := abs_le.mp b2
+  refine ⟨deltas, e, abs_le.mpr ⟨by linarith, by linarith⟩, abs_le.mpr ⟨by linarith, by linarith⟩⟩
 
 /-- **the glue between the byte-level fast path and the decoded tuples**: with the calls of the two
 passes as in `sparse_fast_path_eq_iterator` (`pts.zip xs`, `pts.zip ys`, distinct points), values
